@@ -3773,21 +3773,37 @@ impl ContinuityStore {
         workspace: &str,
     ) -> Result<Option<String>, io::Error> {
         let events = self.event_log.replay_validated()?;
-        let mut best: Option<(u64, String)> = None;
+        // Branch and handoff children are created with the parent's workspace key but are never the
+        // workspace default (create_continuity_locked(.., set_as_default = false)); their streams
+        // carry a continuity_branched / continuity_handoff_created frame. Recover the newest thread
+        // that is not such a child, and only when every thread of the workspace is one, the newest.
+        let mut children: std::collections::HashSet<String> = std::collections::HashSet::new();
+        let mut created: Vec<(u64, String)> = Vec::new();
         for event in events {
-            let EventKind::ContinuityCreated { workspace: w, .. } = event.kind else {
-                continue;
-            };
-            if w != workspace {
-                continue;
-            }
-            let id = event.session_id;
-            match best {
-                Some((ts, _)) if ts >= event.timestamp_ms => {}
-                _ => best = Some((event.timestamp_ms, id)),
+            match event.kind {
+                EventKind::ContinuityBranched { .. } | EventKind::ContinuityHandoffCreated { .. } => {
+                    children.insert(event.session_id);
+                }
+                EventKind::ContinuityCreated { workspace: w, .. } if w == workspace => {
+                    created.push((event.timestamp_ms, event.session_id));
+                }
+                _ => {}
             }
         }
-        Ok(best.map(|(_, id)| id))
+        let newest = |skip_children: bool| {
+            let mut best: Option<&(u64, String)> = None;
+            for entry in &created {
+                if skip_children && children.contains(&entry.1) {
+                    continue;
+                }
+                match best {
+                    Some((ts, _)) if *ts >= entry.0 => {}
+                    _ => best = Some(entry),
+                }
+            }
+            best.map(|(_, id)| id.clone())
+        };
+        Ok(newest(true).or_else(|| newest(false)))
     }
 
     fn create_continuity(
